@@ -2,6 +2,8 @@
 harness/cmd/trav)."""
 import json
 import os
+import random
+import re
 import time
 from concurrent.futures import ThreadPoolExecutor
 
@@ -79,10 +81,73 @@ def stage1(prop, tier, v, cov):
     cov["transitions"] = trans
 
 
-def drive(binary, seed, n, out, only=None):
+GEN_CFG = """CONSTANTS
+ Graph = "%s"
+ K = %d
+ Alpha = %d
+ Target = 0
+ GenHist = TRUE
+ StopAfter = %d
+ DedupAtPop = TRUE
+ CaptureUnderLock = TRUE
+ TraceMode = FALSE
+ Strict = TRUE
+SPECIFICATION GenSpec
+CONSTRAINT GenOut
+CHECK_DEADLOCK FALSE
+"""
+
+
+def gen_schedules(tier, seed, v, cov):
+    """TLC as generator (spec -> code): finished behaviours of the model over the response-graph library, simulated with
+    Gen_Traversal.tla; each distinct one is a schedule the driver replays on the real traversal.Operation."""
+    combos = [("g1", 2, 2), ("g2", 2, 2), ("g3", 2, 1), ("g4", 1, 3), ("g5", 2, 2), ("g6", 3, 2)]
+    if tier == "thorough":
+        combos += [("g1", 1, 3), ("g1", 3, 1), ("g2", 2, 3), ("g3", 2, 2), ("g4", 2, 2), ("g5", 1, 3), ("g5", 3, 2), ("g6", 3, 3)]
+    num = 120 if tier == "quick" else 1200
+    cap = 150 if tier == "quick" else 1200        # schedules kept per (graph, K, Alpha)
+    jobs = [(g, k, a, sa) for g, k, a in combos for sa in (2, 6, 99)]
+    t0 = time.time()
+
+    def one(job):
+        g, k, a, sa = job
+        return job, vlib.tlc("Gen_Traversal", GEN_CFG % (g, k, a, sa), workers=1, timeout=600,
+                             simulate="num=%d" % num, extra=["-depth", "200", "-seed", str(seed * 7919 + sa)], heap="2g")
+
+    per = {}
+    generated = 0
+    with ThreadPoolExecutor(max_workers=max(1, vlib.NCPU // 4)) as ex:
+        for job, r in ex.map(one, jobs):
+            if r.timed_out or r.error or "SCHED" not in r.out:
+                v.inconclusive.append("schedule generator failed for %s: err=%s timeout=%s" % (job, r.error, r.timed_out))
+                continue
+            m = re.search(r"number of states generated: (\d+)", r.out)
+            generated += int(m.group(1)) if m else 0
+            for m in re.finditer(r'<<"SCHED", "((?:[^"\\]|\\.)*)">>', r.out):
+                per.setdefault(job[:3], set()).add(json.loads('"' + m.group(1) + '"'))
+    rnd = random.Random(seed)
+    scripts = []
+    distinct = 0
+    for key in sorted(per):
+        xs = sorted(per[key])
+        distinct += len(xs)
+        # the longest behaviours first (they are the ones a prefix cannot stand in for), then a seeded sample of the rest
+        xs.sort(key=lambda x: -len(x))
+        keep = xs[:cap // 3] + rnd.sample(xs[cap // 3:], min(len(xs) - min(len(xs), cap // 3), cap - cap // 3))
+        scripts += [json.loads(x) for x in keep]
+    log("  TLC generator: %d distinct finished behaviours over %d (graph, K, Alpha) instances, %d kept as schedules (%d states simulated, %.1fs)"
+        % (distinct, len(per), len(scripts), generated, time.time() - t0))
+    cov["generator"] = dict(distinct_behaviours=distinct, schedules=len(scripts), instances=len(per), states_simulated=generated,
+                            wall_s=round(time.time() - t0, 1))
+    return scripts
+
+
+def drive(binary, seed, n, out, only=None, scripts=None):
     args = ["-seed", seed, "-n", n, "-out", out]
     if only is not None:
         args += ["-only", only]
+    if scripts:
+        args += ["-scripts", scripts]
     rc, so, se = vlib.run_driver(binary, args, timeout=1800)
     if rc != 0:
         raise vlib.Inconclusive("traversal driver failed (rc=%s): %s" % (rc, (se or "")[-3000:]))
@@ -122,25 +187,48 @@ def run(prop, tier, seed, replay=None):
     t0 = time.time()
     v = vlib.Verdict(prop)
     cov = dict(mc_runs=[], samples=[], traces_validated_against_impl=0)
+    genfut = None
     if not replay:
+        # the schedule generator (TLC simulation) runs beside the exhaustive model runs
+        genex = ThreadPoolExecutor(max_workers=1)
+        genfut = genex.submit(gen_schedules, tier, seed, v, cov)
         stage1(prop, tier, v, cov)
     binary = vlib.go_build("trav")
     wd = vlib.scratch("verif-trav-")
     jobs = []
+    script_of = {}       # driver seed -> the schedules that run replays (lookup i = schedule i)
     if replay:
         meta = json.load(open(os.path.join(replay, "meta.json")))
-        jobs = [(meta["seed"], meta["lookup"] + 1, meta["lookup"])]
+        sp = None
+        if os.path.exists(os.path.join(replay, "script.json")):
+            sp = os.path.join(wd, "replay-scripts.json")
+            with open(sp, "w") as f:
+                json.dump([json.load(open(os.path.join(replay, "script.json")))] * (meta["lookup"] + 1), f)
+        jobs = [(meta["seed"], meta["lookup"] + 1, meta["lookup"], sp)]
     elif tier == "quick":
-        jobs = [(seed * 100 + i, 250, None) for i in range(8)]
+        jobs = [(seed * 100 + i, 250, None, None) for i in range(8)]
     else:
-        jobs = [(seed * 100 + i, 1500, None) for i in range(16)]
+        jobs = [(seed * 100 + i, 1500, None, None) for i in range(16)]
+    if not replay:
+        scripts = genfut.result()
+        genex.shutdown()
+        nchunk = 4 if tier == "quick" else 12
+        for c in range(nchunk):
+            part = scripts[c::nchunk]
+            if part:
+                sp = os.path.join(wd, "scripts-%d.json" % c)
+                with open(sp, "w") as f:
+                    json.dump(part, f)
+                script_of[seed * 100 + 50 + c] = part
+                jobs.append((seed * 100 + 50 + c, len(part), None, sp))
     events = lookups = hangs = 0
+    sched_steps = sched_skipped = sched_run = 0
     results = []
 
     def one(job):
-        s, n, only = job
+        s, n, only, sp = job
         out = os.path.join(wd, "trace-%d.ndjson" % s)
-        st = drive(binary, s, n, out, only)
+        st = drive(binary, s, n, out, only, sp)
         tv = vlib.validate_trace("Trace_Traversal", trace_cfgs(prop), out, INV_PROPS)
         return s, out, st, tv
 
@@ -157,6 +245,10 @@ def run(prop, tier, seed, replay=None):
     for s, out, st, tv in results:
         events += st["events"]
         lookups += st["lookups"] if not replay else 1
+        if s in script_of:
+            sched_run += st["lookups"]
+            sched_steps += st.get("steps", 0)
+            sched_skipped += st.get("skipped", 0)
         cov["traces_validated_against_impl"] += tv["accepted_segments"]
         for i in tv["inconclusive"]:
             v.inconclusive.append(i)
@@ -173,8 +265,10 @@ def run(prop, tier, seed, replay=None):
             if prop not in f["props"]:
                 log("  note: invariant %s (%s) violated in lookup %s/%s; not this property" % (f["name"], ",".join(f["props"]), start.get("seed"), start.get("lookup")))
                 continue
-            rp = vlib.save_replay(prop, "%s-%s-%s" % (f["name"], start.get("seed"), start.get("lookup")),
-                                  {"trace.ndjson": "\n".join(segl) + "\n", "state.txt": f.get("state") or ""},
+            files = {"trace.ndjson": "\n".join(segl) + "\n", "state.txt": f.get("state") or ""}
+            if s in script_of and start.get("lookup") is not None:
+                files["script.json"] = script_of[s][start["lookup"]]
+            rp = vlib.save_replay(prop, "%s-%s-%s" % (f["name"], start.get("seed"), start.get("lookup")), files,
                                   dict(property=prop, invariant=f["name"], seed=start.get("seed"), lookup=start.get("lookup"),
                                        line=f["line"], how="bin/check %s --replay <this dir>" % prop))
             v.violation("%s" % f["name"], "%s violated on the state reconstructed from a real lookup (seed %s lookup %s) at event %s"
@@ -197,25 +291,37 @@ def run(prop, tier, seed, replay=None):
                 rep = 0
                 for k in range(2):
                     o2 = os.path.join(wd, "rehang-%d.ndjson" % k)
-                    drive(binary, h["seed"], h["lookup"] + 1, o2, h["lookup"])
+                    drive(binary, h["seed"], h["lookup"] + 1, o2, h["lookup"],
+                          os.path.join(wd, "scripts-%d.json" % (s - seed * 100 - 50)) if s in script_of else None)
                     rep += os.path.exists(o2 + ".hang")
                 if rep == 2:
-                    rp = vlib.save_replay(prop, "hang-%s-%s" % (h["seed"], h["lookup"]), {"hang.json": h},
+                    rp = vlib.save_replay(prop, "hang-%s-%s" % (h["seed"], h["lookup"]),
+                                          dict({"hang.json": h}, **({"script.json": script_of[s][h["lookup"]]} if s in script_of else {})),
                                           dict(property=prop, seed=h["seed"], lookup=h["lookup"], what=h["what"]))
                     v.violation("hang", "lookup never made the progress it owes (reproduced 3x): %s; snapshot %s" % (h["what"], h["snap"]), rp)
                 elif h.get("window_ms", 0) >= 10000 and h.get("ticks", 0) * 20 >= h["window_ms"]:
                     # not reproduced (the schedule of a concurrently driven lookup is not replayable), but the state shows an
                     # obligation that stayed unmet for the whole wait while this process demonstrably kept being scheduled
-                    rp = vlib.save_replay(prop, "hang-%s-%s" % (h["seed"], h["lookup"]), {"hang.json": h},
+                    rp = vlib.save_replay(prop, "hang-%s-%s" % (h["seed"], h["lookup"]),
+                                          dict({"hang.json": h}, **({"script.json": script_of[s][h["lookup"]]} if s in script_of else {})),
                                           dict(property=prop, seed=h["seed"], lookup=h["lookup"], what=h["what"]))
                     v.violation("hang", "lookup never made the progress it owes: %s; snapshot %s; the driver process was scheduled %d times in the "
                                 "%d ms it waited (no starvation)" % (h["what"], h["snap"], h["ticks"], h["window_ms"]), rp)
                 else:
                     v.inconclusive.append("a hang did not reproduce and starvation cannot be excluded: %s" % h)
+    cov["schedules_replayed"] = dict(lookups=sched_run, steps=sched_steps, steps_not_applicable=sched_skipped)
+    if not replay:
+        log("  spec -> code: %d TLC-generated schedules replayed on the real traversal (%d environment steps, %d not applicable in the state "
+            "the code had reached)" % (sched_run, sched_steps, sched_skipped))
+        if sched_run == 0 or sched_steps == 0 or sched_skipped * 2 > sched_steps:
+            v.inconclusive.append("schedule replay did not take place or mostly diverged (%d schedules, %d steps, %d skipped)"
+                                  % (sched_run, sched_steps, sched_skipped))
     cov.update(evaluations=lookups, events_validated=events, deviations_without_property_violation=deviations, hangs=hangs,
                rule="seeded random response graphs (3-14 addresses incl. IPv6 and shared IPs, liars, silent and filtered nodes, duplicate IDs, "
                     "one address under many IDs, honest networks), K in {1,2,3,8}, Alpha 1..3, gated DoQuery: the driver picks the completion "
-                    "order; half of the lookups released/extended concurrently; every hook event validated by TLC against Traversal.tla",
+                    "order; half of the lookups released/extended concurrently; plus the finished behaviours TLC simulates on the model's own "
+                    "response-graph library (Gen_Traversal.tla), replayed step by step on the real code; every hook event validated by TLC "
+                    "against Traversal.tla",
                distinct_nontrivial=cov["traces_validated_against_impl"], exhaustive=False,
                invariants=[k for k, p in INV_PROPS.items() if prop in p])
     rc = v.finish()
